@@ -315,7 +315,8 @@ class Trench:
         for poly in polygon_list:
             if poly.is_empty:
                 continue
-            hatching = self.zigzag(poly.buffer(1.05 * self.delta_floor))
+            # a polygon left over from the very first inset, grown by more than one spacing, would stick out of the block
+            hatching = self.zigzag(poly.buffer(1.05 * self.delta_floor).intersection(self.block))
             if hatching.size:
                 yield hatching
 
